@@ -189,3 +189,73 @@ V("c12-collapse-bit-inverted", "C12", BN, "first_bit = BYTE_1 if new_right_child
 V("c12-silent-collapse-bit-by-left", "C12", BN, "first_bit = BYTE_1 if new_right_child != BLANK_HASH else BYTE_0", "first_bit = BYTE_1 if new_left_child == BLANK_HASH else BYTE_0", expect="silent")
 V("c12-branch-order-swapped", "C12", BN, "                newsub = self._hash_and_save(encode_branch_node(oldnode, valnode))\n            else:\n                newsub = self._hash_and_save(encode_branch_node(valnode, oldnode))", "                newsub = self._hash_and_save(encode_branch_node(valnode, oldnode))\n            else:\n                newsub = self._hash_and_save(encode_branch_node(oldnode, valnode))", rule="ABS4b")
 V("c12-kept-head-off", "C12", BN, "encode_kv_node(left_child[:common_prefix_len], newsub)", "encode_kv_node(left_child[: common_prefix_len + 1], newsub)", rule="ABS4b")
+
+# --- C02 ------------------------------------------------------------------------------------
+V("c02-embed-le-32", "C02", HX, "        if len(encoded_node) < 32:\n            return node, None", "        if len(encoded_node) <= 32:\n            return node, None", rule="SIB9")
+V("c02-silent-embed-flipped", "C02", HX, "        if len(encoded_node) < 32:\n            return node, None", "        if 32 > len(encoded_node):\n            return node, None", expect="silent")
+V("c02-silent-embed-le-31", "C02", HX, "        if len(encoded_node) < 32:\n            return node, None", "        if len(encoded_node) <= 31:\n            return node, None", expect="silent")
+V("c02-reader-threshold", "C02", HX, "        if len(node_hash) < 32:\n            encoded_node = node_hash", "        if len(node_hash) < 33:\n            encoded_node = node_hash", rule="SIB9")
+V("c02-hp-flag-on-even", "C02", NB, "                (flag + 1,),\n                raw_nibbles,", "                (flag,),\n                raw_nibbles,", rule="SIB6")
+V("c02-delete-branch-no-normalise", "C02", HX, "        node[trie_key[0]] = encoded_sub_node\n        if encoded_sub_node == BLANK_NODE:\n            return self._normalize_branch_node(node)\n\n        return node",
+  "        node[trie_key[0]] = encoded_sub_node\n\n        return node", rule="TS3")
+V("c02-silent-normalise-always", "C02", HX, "        node[trie_key[0]] = encoded_sub_node\n        if encoded_sub_node == BLANK_NODE:\n            return self._normalize_branch_node(node)\n\n        return node",
+  "        node[trie_key[0]] = encoded_sub_node\n        return self._normalize_branch_node(node)", expect="silent", props=["C02", "C07", "C06"])
+V("c02-empty-extension", "C02", HX, "            if len(current_key_remainder) == 1 and is_extension:\n                new_node[current_key_remainder[0]] = node[1]\n            else:", "            if False:\n                pass\n            else:", rule="TS4")
+V("c02-branch-15", "C02", HX, "                new_node = [BLANK_NODE] * 16 + [node[1]]", "                new_node = [BLANK_NODE] * 15 + [node[1]]", rule="SIB11")
+V("c02-root-not-stored-when-short", "C02", HX, "        if value is None:\n            # Some nodes are so small that they are not encoded during\n            # _node_to_db_mapping, so we manually encode and hash it here:\n            encoded_node = encode_raw(key)\n            node_hash = keccak(encoded_node)\n        else:",
+  "        if value is None:\n            return keccak(encode_raw(key))\n        else:", rule="ABS6")
+# --- C03 ------------------------------------------------------------------------------------
+V("c03-branch-hit-drops-node", "C03", HX, "            if not unproven_key:\n                return updated_proof", "            if not unproven_key:\n                return last_proof", rule="TS5")
+V("c03-recursion-loses-node", "C03", HX, "            return self._get_proof(next_node, trie_key, new_proven_len, updated_proof)", "            return self._get_proof(next_node, trie_key, new_proven_len, last_proof)", rule="TS5")
+V("c03-proven-len-off", "C03", HX, "                new_proven_len = proven_len + len(current_key)\n", "                new_proven_len = proven_len + len(current_key) - 1\n", rule="TS5")
+V("c03-verifier-db-prefilled", "C03", HX, "        trie = cls({})\n", "        trie = cls({root_hash: b''})\n", rule="EFF3")
+V("c03-silent-rename", "C03", HX, "        updated_proof = last_proof + (node,)\n        unproven_key = trie_key[proven_len:]", "        updated_proof = last_proof + (node,)\n        rest = trie_key[proven_len:]\n        unproven_key = rest", expect="silent")
+# --- C06 ------------------------------------------------------------------------------------
+V("c06-prune-merge-dropped", "C06", HX, "        if new_sub_node_type in {NODE_TYPE_LEAF, NODE_TYPE_EXTENSION}:\n            self._prune_node(new_sub_node)\n", "        if new_sub_node_type in {NODE_TYPE_LEAF, NODE_TYPE_EXTENSION}:\n", rule="TS2")
+V("c06-prune-normalise-dropped", "C06", HX, "        if sub_node_type in {NODE_TYPE_LEAF, NODE_TYPE_EXTENSION}:\n            self._prune_node(sub_node)\n", "        if sub_node_type in {NODE_TYPE_LEAF, NODE_TYPE_EXTENSION}:\n", rule="TS2")
+V("c06-prune-visited-dropped", "C06", HX, "        node_type = get_node_type(node)\n\n        self._prune_node(node)\n\n        if node_type == NODE_TYPE_BLANK:\n            # ignore attempt", "        node_type = get_node_type(node)\n\n        if node_type == NODE_TYPE_BLANK:\n            # ignore attempt", rule="TS1")
+V("c06-silent-prune-after-blank-arm", "C06", HX, "        node_type = get_node_type(node)\n\n        self._prune_node(node)\n\n        if node_type == NODE_TYPE_BLANK:\n            # ignore attempt to delete key from empty node\n            return BLANK_NODE\n        elif node_type in {NODE_TYPE_LEAF, NODE_TYPE_EXTENSION}:\n            return self._delete_kv_node(node, trie_key)",
+  "        node_type = get_node_type(node)\n\n        if node_type == NODE_TYPE_BLANK:\n            # ignore attempt to delete key from empty node\n            return BLANK_NODE\n        self._prune_node(node)\n        if node_type in {NODE_TYPE_LEAF, NODE_TYPE_EXTENSION}:\n            return self._delete_kv_node(node, trie_key)", expect="silent")
+V("c06-count-elsewhere", "C06", HX, "        if value is not None:\n            self._set_db_value(key, value)\n        return key", "        if value is not None:\n            self._set_db_value(key, value)\n            if self.is_pruning:\n                self._ref_count[key] += 1\n        return key", rule="EFF1")
+V("c06-complete-pruning-on-failure", "C06", HX, "            yield\n            if self.is_pruning:\n                self._complete_pruning()\n        finally:", "            yield\n        finally:\n            if self.is_pruning:\n                self._complete_pruning()", rule="ORD3")
+# --- C07 ORD2 / READPATH ------------------------------------------------------------------
+V("c07-persist-before-read", "C07", HX, "            sub_node = self.get_node(node[trie_key[0]])\n\n            new_node = self._set(sub_node, trie_key[1:], value)\n            node[trie_key[0]] = self._persist_node(new_node)",
+  "            marker = self._persist_node([compute_leaf_key(trie_key[1:]), value])\n            sub_node = self.get_node(node[trie_key[0]])\n\n            new_node = self._set(sub_node, trie_key[1:], value)\n            node[trie_key[0]] = self._persist_node(new_node)", rule="ORD2")
+# --- C08 ------------------------------------------------------------------------------------
+V("c08-range-15", "C08", ND, "Nibbles((nibble,)) for nibble in range(16) if bool(node_body[nibble])", "Nibbles((nibble,)) for nibble in range(15) if bool(node_body[nibble])", rule="ANN")
+V("c08-value-wrong-slot", "C08", ND, "            sub_segments=sub_segments,\n            value=bytes(node_body[-1]),", "            sub_segments=sub_segments,\n            value=bytes(node_body[0]),", rule="ANN")
+V("c08-trim-off-by-one", "C08", EX, "                trimmed_suffix = Nibbles(actual_node.suffix[len(key_tail) :])", "                trimmed_suffix = Nibbles(actual_node.suffix[len(key_tail) - 1 :])", rule="PROV7")
+V("c08-traverse-from-no-raise", "C08", HX, "        node, remaining_key = self._traverse_from(parent_node.raw, trie_key)\n\n        annotated_node = annotate_node(node)\n\n        if remaining_key:\n            path_to_node = trie_key[: len(trie_key) - len(remaining_key)]\n            raise TraversedPartialPath(path_to_node, annotated_node, remaining_key)\n        else:\n            return annotated_node",
+  "        node, remaining_key = self._traverse_from(parent_node.raw, trie_key)\n\n        annotated_node = annotate_node(node)\n\n        return annotated_node", rule="SIB2")
+V("c08-second-read-per-hop", "C08", HX, "            try:\n                node = self.get_node(next_node_pointer)\n            except KeyError as exc:", "            try:\n                node = self.get_node(next_node_pointer)\n                node = self.get_node(next_node_pointer)\n            except KeyError as exc:", rule="ABS5")
+V("c08-path-to-node-wrong", "C08", HX, "        node, remaining_key = self._traverse(self.root_hash, trie_key)\n\n        annotated_node = annotate_node(node)\n\n        if remaining_key:\n            path_to_node = trie_key[: len(trie_key) - len(remaining_key)]",
+  "        node, remaining_key = self._traverse(self.root_hash, trie_key)\n\n        annotated_node = annotate_node(node)\n\n        if remaining_key:\n            path_to_node = trie_key[: len(remaining_key)]", rule="SIB2")
+V("c08-branch-same-key-below", "C08", HX, "                next_node_pointer = node[remaining_key[0]]\n                remaining_key = remaining_key[1:]", "                next_node_pointer = node[remaining_key[0]]\n                remaining_key = remaining_key", rule="ABS1")
+V("c08-silent-negative-index", "C08", ND, "            sub_segments=(),\n            value=bytes(node_body[-1]),\n            suffix=Nibbles(extract_key(node_body)),", "            sub_segments=(),\n            value=bytes(node_body[1]),\n            suffix=Nibbles(extract_key(node_body)),", expect="silent")
+# --- C01 ------------------------------------------------------------------------------------
+V("c01-empty-value-not-routed", "C01", HX, "            if value == b\"\":\n                new_node = self._delete(root_node, trie_key)\n            else:\n                new_node = self._set(root_node, trie_key, value)", "            new_node = self._set(root_node, trie_key, value)", rule="ROUTE1")
+V("c01-silent-empty-value-not", "C01", HX, "            if value == b\"\":\n                new_node = self._delete(root_node, trie_key)\n            else:\n                new_node = self._set(root_node, trie_key, value)", "            if not value:\n                new_node = self._delete(root_node, trie_key)\n            else:\n                new_node = self._set(root_node, trie_key, value)", expect="silent")
+V("c01-contains-is-not-none", "C01", HX, "    def __contains__(self, key):\n        return self.exists(key)", "    def __contains__(self, key):\n        return self.get(key) is not None", rule="SIB1")
+V("c01-leaf-value-without-test", "C01", HX, "            if remaining_key == extract_key(node):\n                return node[1]\n            else:", "            if True:\n                return node[1]\n            else:", rule="ABS3")
+V("c01-branch-wrong-slot", "C01", HX, "            else:\n                return node[-1]\n        else:\n            raise Exception(\"Invariant: This shouldn't ever happen\")\n\n    def traverse", "            else:\n                return node[1]\n        else:\n            raise Exception(\"Invariant: This shouldn't ever happen\")\n\n    def traverse", rule="ABS3")
+# --- C14 / C15 -----------------------------------------------------------------------------
+V("c14-delete-writes-blank", "C14", SM, "        return self.set(key, self._default)", "        return self.set(key, b\"\")", rule="PROV2")
+V("c14-sibling-order-in-set", "C14", SM, "            if path & target_bit:\n                node = sibling_node + node_hash\n            else:\n                node = node_hash + sibling_node", "            if path & target_bit:\n                node = node_hash + sibling_node\n            else:\n                node = sibling_node + node_hash", rule="SIB5")
+V("c14-bit-direction-in-get", "C14", SM, "        target_bit = 1 << (self.depth - 1)\n        path = to_int(key)", "        target_bit = 1\n        path = to_int(key)", rule="SIB5")
+V("c14-unreversed", "C14", SM, "        return tuple(reversed(proof_update))", "        return tuple(proof_update)", rule="PROV10")
+V("c14-branch-skips-blank-test", "C14", SM, "        value, branch = self._get(key)\n\n        # Ensure that it isn't blank!\n        if value == BLANK_NODE:\n            raise KeyError(\"Key does not exist\")\n\n        return branch", "        value, branch = self._get(key)\n\n        return branch", rule="SIB12")
+V("c15-guard-lt", "C15", SM, "            if len(node_updates) <= branch_point:", "            if len(node_updates) < branch_point:", rule="REL2")
+V("c15-silent-guard-flipped", "C15", SM, "            if len(node_updates) <= branch_point:", "            if branch_point >= len(node_updates):", expect="silent")
+V("c15-store-before-check", "C15", SM, "            if len(node_updates) <= branch_point:\n                raise ValidationError(\"Updated node list is not deep enough\")\n\n            # Update sibling node in the branch where our key differs from the update\n            self._branch[branch_point] = node_updates[branch_point]",
+  "            self._branch[branch_point] = node_updates[min(branch_point, len(node_updates) - 1)]\n            if len(node_updates) <= branch_point:\n                raise ValidationError(\"Updated node list is not deep enough\")", rule="ORD6")
+V("c15-wrong-index", "C15", SM, "            self._branch[branch_point] = node_updates[branch_point]", "            self._branch[branch_point] = node_updates[-1]", rule="EFF5")
+V("c15-value-on-other-key", "C15", SM, "            self._branch[branch_point] = node_updates[branch_point]\n", "            self._branch[branch_point] = node_updates[branch_point]\n            self._value = value\n", rule="EFF5")
+V("c15-branch-aliased", "C15", SM, "        self._branch = list(branch)  # Avoid issues with mutable lists", "        self._branch = branch", rule="AL3")
+# --- C16 ------------------------------------------------------------------------------------
+V("c16-needs-terminator-only-2", "C16", NB, "    needs_terminator = flag in {HP_FLAG_2, HP_FLAG_2 + 1}", "    needs_terminator = flag in {HP_FLAG_2}", rule="SIB6")
+V("c16-silent-needs-terminator-ge", "C16", NB, "    needs_terminator = flag in {HP_FLAG_2, HP_FLAG_2 + 1}", "    needs_terminator = flag >= HP_FLAG_2", expect="silent")
+V("c16-skip-one-on-even", "C16", NB, "        raw_nibbles = nibbles_with_flag[2:]", "        raw_nibbles = nibbles_with_flag[1:]", rule="SIB6")
+V("c16-kv-guard-lt-33", "C16", ND, "        if len(node) <= 33:", "        if len(node) < 33:", rule="EXC6")
+V("c16-branch-prefix-2", "C16", "trie/constants.py", "BRANCH_TYPE_PREFIX = bytes([1])", "BRANCH_TYPE_PREFIX = bytes([2])", rule="SIB7")
+V("c16-reverse-table-not-inverse", "C16", NB, "REVERSE_NIBBLES_LOOKUP = {value: key for key, value in NIBBLES_LOOKUPS.items()}", "REVERSE_NIBBLES_LOOKUP = {value: key for key, value in NIBBLES_LOOKUPS.items() if key}", rule="PROV9")
+V("c16-leaf-key-no-terminator", "C16", ND, "    return encode_nibbles(add_nibbles_terminator(nibbles))", "    return encode_nibbles(nibbles)", rule="SIB8")
